@@ -566,7 +566,9 @@ def np_call(ev, name, args, kwargs, node):
             from .evalr import ExtV
             last = dt.dotted.split(".")[-1] if isinstance(dt, ExtV) else (dt.value if isinstance(dt, Const) and isinstance(dt.value, str) else None)
             if last not in ("float", "float64", "double", "longdouble", "f8", "d"):
-                kw = [("dtype", Const("int" if last in ("int", "int64", "intp", "int32", "i8") else "bool" if last in ("bool", "bool_") else "other"))]
+                # buffers of a fixed narrow integer width are told apart: counts stored into them wrap around at 2**31 (2**15, ...)
+                kw = [("dtype", Const("int" if last in ("int", "int64", "intp", "i8", "int_", "longlong") else "bool" if last in ("bool", "bool_")
+                               else "narrowint" if last in ("int32", "int16", "int8", "uint8", "uint16", "uint32", "i4", "i2", "i1", "intc", "short") else "other"))]
         return App(name, (as_v(ev, arg(0, "shape")),), kw)
     if name == "full":
         dt = kwargs.get("dtype")
